@@ -542,6 +542,12 @@ pub fn run(cat: &Catalog, cfg: &Config, stats: &mut Stats, run_seed: u64) -> Vec
                                 // an index the reading definition does not know, or a transient one
                                 let order = rdef.wire_order();
                                 let mut bad: Vec<u32> = vec![order.len() as u32, order.len() as u32 + 1 + fl.below(200) as u32, u32::MAX, 1 << 31];
+                                // unknown indices whose low byte (or low 16 bits) is a known one
+                                for k in 0..order.len() as u32 {
+                                    bad.push(256 + k);
+                                    bad.push(512 * (1 + fl.below(100) as u32) + k);
+                                    bad.push(65536 + k);
+                                }
                                 for (rank, decl) in order.iter().enumerate() {
                                     if rdef.ctors[*decl].transient {
                                         bad.push(rank as u32);
